@@ -66,6 +66,86 @@ def gen_cells(tier):
                            "eqmask": [True, False, True, False, False]}
 
 
+CTORS = ["Rx", "Ry", "Rz", "RPY", "Eul", "Tx", "Ty", "Tz", "SO2", "Twist3.Rx", "Twist3.Ry", "Twist3.Rz", "UQ.Rx", "UQ.Ry", "UQ.Rz", "SE3(Nx3)", "Exp"]
+ORDERS = ["zyx", "xyz", "yxz", "arm", "vehicle", "camera"]
+
+
+def s_ctor():
+    return st.fixed_dictionaries({"kind": st.just("ctor"), "ctor": st.sampled_from(CTORS), "cls": st.sampled_from(["SO3", "SE3"]),
+                                  "m": st.integers(1, 5), "unit": st.sampled_from(["rad", "deg"]), "order": st.sampled_from(ORDERS),
+                                  "form": st.sampled_from(["list", "array"]),
+                                  "rows": st.lists(st.lists(gens.fl(-3, 3), min_size=3, max_size=3), min_size=5, max_size=5)})
+
+
+def gen_ctor_cells(tier):
+    rows = [[0.3, -0.7, 1.1], [1.2, 0.4, -0.9], [-2.0, 0.8, 0.5], [0.1, 1.4, 2.2], [2.5, -1.1, -0.3]]
+    for ct in CTORS:
+        for cls in ("SO3", "SE3"):
+            for m in range(1, 6):
+                for unit in ("rad", "deg"):
+                    for order in (ORDERS if ct == "RPY" else ["zyx"]):
+                        for form in ("list", "array"):
+                            yield {"kind": "ctor", "ctor": ct, "cls": cls, "m": m, "unit": unit, "order": order, "form": form, "rows": rows}
+
+
+def _ctor(case):
+    ct, cn, M, unit, order = case["ctor"], case["cls"], case["m"], case["unit"], case["order"]
+    rows = [list(r) for r in case["rows"][:M]]
+    c = Checker("ctor", ctor=ct, cls=cn, m=M, unit=unit, order=order)
+    cls = getattr(L, cn)
+    arrf = (lambda x: np.array(x)) if case["form"] == "array" else (lambda x: list(x))
+    angs = [r[0] for r in rows]
+    if ct in ("Rx", "Ry", "Rz"):
+        multi = lambda: getattr(cls, ct)(arrf(angs), unit)
+        single = lambda i: getattr(cls, ct)(angs[i], unit)
+    elif ct == "RPY":
+        multi = lambda: cls.RPY(arrf(rows) if M > 1 else rows[0], order=order, unit=unit)
+        single = lambda i: cls.RPY(rows[i], order=order, unit=unit)
+    elif ct == "Eul":
+        multi = lambda: cls.Eul(arrf(rows) if M > 1 else rows[0], unit=unit)
+        single = lambda i: cls.Eul(rows[i], unit=unit)
+    elif ct in ("Tx", "Ty", "Tz"):
+        cls = L.SE3
+        multi = lambda: getattr(L.SE3, ct)(arrf(angs))
+        single = lambda i: getattr(L.SE3, ct)(angs[i])
+    elif ct == "SO2":
+        cls = L.SO2
+        multi = lambda: L.SO2(arrf(angs), unit=unit)
+        single = lambda i: L.SO2(angs[i], unit=unit)
+    elif ct.startswith("Twist3."):
+        cls = L.Twist3
+        multi = lambda: getattr(L.Twist3, ct[7:])(arrf(angs), unit)
+        single = lambda i: getattr(L.Twist3, ct[7:])(angs[i], unit)
+    elif ct.startswith("UQ."):
+        cls = L.UnitQuaternion
+        multi = lambda: getattr(L.UnitQuaternion, ct[3:])(arrf(angs), unit)
+        single = lambda i: getattr(L.UnitQuaternion, ct[3:])(angs[i], unit)
+    elif ct == "SE3(Nx3)":
+        if M == 1 or M == 3:
+            return c.out               # a 3-vector / 3x3 array has another meaning
+        cls = L.SE3
+        multi = lambda: L.SE3(np.array(rows))
+        single = lambda i: L.SE3(rows[i])
+    else:   # Exp of a list of twists
+        cls = L.SE3
+        tw = [r + r[::-1] for r in rows]
+        if M == 6 or M == 1:
+            return c.out
+        multi = lambda: L.SE3.Exp([np.array(t) for t in tw])
+        single = lambda i: L.SE3.Exp(np.array(tw[i]))
+    ok, X = c.lib(ct + "/multi", multi)
+    if not ok:
+        return c.out
+    if not c.true(ct + "/class", type(X) is cls and len(X) == M, "%s of %d values gave %s of length %s" % (ct, M, type(X).__name__, len(X) if hasattr(X, "__len__") else "?")):
+        return c.out
+    for i in range(M):
+        ok, Xi = c.lib(ct + "/single", single, i)
+        if ok and not same(X.data[i], Xi.data[0]):
+            c.fail(ct + "/elements", "element %d of the %d-valued constructor result differs from the single-valued call" % (i, M), index=i)
+            break
+    return c.out
+
+
 def s_unary():
     return st.sampled_from(CLASSES).flatmap(lambda cn: st.fixed_dictionaries({
         "kind": st.just("unary"), "cls": st.just(cn), "m": st.integers(1, 5),
@@ -136,7 +216,7 @@ def same(a, b, tol=1e-12):
 
 
 def check_case(case):
-    return {"binop": _binop, "unary": _unary}[case["kind"]](case)
+    return {"binop": _binop, "unary": _unary, "ctor": _ctor}[case["kind"]](case)
 
 
 def _binop(case):
@@ -386,6 +466,8 @@ def classify(case):
         lab["nontrivial"] = m != n or (m > 1 and n > 1)
     else:
         lab["nontrivial"] = case["m"] > 1
+        if case["kind"] == "ctor":
+            lab["ctor:" + case["ctor"]] = True
     return lab
 
 
@@ -393,6 +475,8 @@ def subchecks(tier):
     return [
         Sub("cells", gen=gen_cells, shards=(8, 16)),
         Sub("unary_cells", gen=gen_unary_cells, shards=(4, 8)),
+        Sub("ctor_cells", gen=gen_ctor_cells, shards=(4, 8)),
+        Sub("ctor", strategy=s_ctor(), n=(150, 5000), shards=(4, 16)),
         Sub("binop", strategy=s_binop(), n=(300, 10000), shards=(8, 16)),
         Sub("unary", strategy=s_unary(), n=(150, 5000), shards=(8, 16)),
     ]
